@@ -93,7 +93,12 @@ def env():
             rec = [req.method, req.path, req.qs, list(req.protocol), sorted([k, v] for k, v in req.headers.items()), body]
             self.seen.append(rec)
             # the response depends on everything the handler saw
-            return 'seen %s' % hashlib.sha1(repr(rec).encode()).hexdigest()
+            answer = 'seen %s' % hashlib.sha1(repr(rec).encode()).hexdigest()
+            if req.path.startswith('/stream'):
+                # ... and is sent through the server's streaming path (a file-like body of several buffers)
+                import io
+                return io.BytesIO((answer + '\n').encode() * 700)
+            return answer
 
     class ClientProbe(BaseComponent):
         channel = 'client'
@@ -566,6 +571,9 @@ SERVER_CORPUS = [
     b'PUT /files//report.txt HTTP/1.0\r\nConnection: keep-alive\r\nContent-Length: 4\r\n\r\nabcd',
     b'POST /a/./b HTTP/1.1\r\nHost: h\r\nTransfer-Encoding: chunked\r\n\r\n' + chunked([b'abc', b'de']),
     b'POST /a/../b;p=1 HTTP/1.1\r\nHost: h\r\nContent-Length: 3\r\n\r\nxyz',
+    # answered through the streaming path (what follows on the connection is a request of its own)
+    b'GET /stream HTTP/1.1\r\nHost: localhost\r\n\r\n',
+    b'POST /stream/up?k=v HTTP/1.1\r\nHost: h\r\nContent-Length: 5\r\n\r\n12345',
 ]
 SERVER_SEQUENCES = [
     [0, 1, 0],
@@ -581,6 +589,9 @@ SERVER_SEQUENCES = [
     [21, 22, 0],
     [0, 23],
     [6, 25, 0],
+    [27, 6, 0],
+    [27, 28, 11],
+    [0, 28, 27, 12],
 ]
 # gzip-coded bodies exercise the parser's decompressor carry-over; the decoded body is not compared with the bytes
 GZ = gzip.compress(b'hello world, hello world, hello world', mtime=0)
@@ -774,7 +785,9 @@ def gen_request(rng, keepalive, allow_head=True):
         path += '/'
     if rng.random() < 0.1:
         path += '%20x'
-    if rng.random() < 0.08:
+    if rng.random() < 0.1 and version == '1.1':
+        path = '/stream' + (path if path != '/' else '')      # answered through the streaming path (HTTP/1.0: delimited by close)
+    elif rng.random() < 0.08:
         path = rng.choice(['/%7Eu', '/a//b', '/a/./b', '/a/../b', '/x;p=1', '/a%41']) + (path if path != '/' else '')     # not in the server's normal form
     target = path
     r = rng.random()
